@@ -42,7 +42,7 @@ def oracle(tier, rng, deep=False):
     import skglm.datafits as sd, skglm.penalties as sp, skglm.solvers as ss
     failures, samples = [], []
     ev = nontriv = 0
-    nrep = 40 if tier == "quick" and not deep else 300
+    nrep = 40 if tier == "quick" and not deep else (120 if tier == "quick" else 300)   # quick + broken obligation: 3x the quick search
     for _ in range(nrep):
         sname = rng.choice(["AndersonCD", "AndersonCD", "AndersonCD", "ProxNewton", "GramCD", "FISTA", "GroupBCD"])
         fi = rng.random() < 0.4 and sname not in ("GramCD", "FISTA")
